@@ -4,13 +4,13 @@ import mir, dn
 text = open('/tmp/kt/mir/rcgen.mir').read()
 fns = mir.parse(text)
 print(len(fns), 'functions parsed')
-only = sys.argv[1:] 
-for ob_fn in dn.ALL:
+only = sys.argv[1:]
+for ob_fn in dn.ALL + dn.NAMES:
     if only and ob_fn.__name__ not in only: continue
     t0 = time.time()
     try:
         ob = ob_fn(fns)
-        print(ob.name, ob.result, ob.reason, 'paths', ob.paths, 'queries', ob.queries, f'{time.time()-t0:.1f}s', ob.cex or '', getattr(ob, 'idioms', ''))
+        print(ob.name, ob.result, ob.reason, 'paths', ob.paths, 'queries', ob.queries, f'{time.time()-t0:.1f}s', ob.cex or '', getattr(ob, 'idioms', ''), getattr(ob, 'shapes', ''))
     except mir.Unsupported as e:
         print(ob_fn.__name__, 'UNSUPPORTED', e)
     except Exception:
